@@ -99,7 +99,6 @@ func Init() *World {
 	return W
 }
 
-func (w *World) Now() int64 { return int64(time.Since(w.start)) }
 
 // Log writes one event line, unbuffered, before the action it describes.
 func (w *World) Log(e Event) {
